@@ -158,6 +158,11 @@ def apply_payload(m, mtype, pl, rng, history, depth):
     elif mtype == "SpectraVoice":
         H = m.HarmonicType
         if rng.random() < 0.5:
+            if rng.random() < 0.4:
+                # the table OBJECTS are replaced by new ones first (a preset loader swapping whole chunks in)
+                for attr in rng.sample(["harmonic_freqs", "harmonic_volumes", "harmonic_widths", "harmonic_types"], rng.randint(1, 4)):
+                    setattr(m, attr, type(getattr(m, attr))())
+                history.append(("harmonic-table-objects-replaced",))
             for i in range(16):
                 h = m.harmonics[i]
                 h.freq_hz = pl["harmonic_freqs"][i]
